@@ -1,7 +1,94 @@
 /-
-  Tie theorems for the dependency package: regenerated switch tables = model constants.
+  Tie theorems for dependency/parser.go and dependency.go: the `switch peek` case sets
+  regenerated from the source agree, on every byte value, with the stop / dispatch
+  predicates the model uses.  A table the extractor could not read is `none` (the fact
+  is then reported as unavailable and the correspondence stream is escalated).
 -/
+import GoDebian.Extracted.Dependency
 import GoDebian.Model.Dependency
 
 namespace GoDebian.Tie.Dependency
+open GoDebian GoDebian.Dep
+open GoDebian.Extracted.Dependency
+
+/-- `p` holds exactly on the bytes listed in rows `rows` of table `t`. -/
+def Agrees (t : Option (List (List Nat))) (rows : List Nat) (p : Nat → Bool) : Prop :=
+  match t with
+  | none => True
+  | some tbl => ∀ b, b < 256 → p b = ((rows.map (fun i => tbl.getD i [])).flatten.contains b)
+
+instance (t rows p) : Decidable (Agrees t rows p) := by
+  unfold Agrees; cases t <;> exact inferInstance
+
+/-- number of case clauses -/
+def Rows (t : Option (List (List Nat))) (n : Nat) : Prop :=
+  match t with | none => True | some tbl => tbl.length = n
+
+instance (t n) : Decidable (Rows t n) := by unfold Rows; cases t <;> exact inferInstance
+
+theorem eatWhitespace_set : Agrees eatWhitespace_cases [0] isWs ∧ Rows eatWhitespace_cases 1 := by decide +kernel
+
+theorem parseDependency_dispatch :
+    Agrees parseDependency_cases [0] (· = 0) ∧ Agrees parseDependency_cases [1] (· = 44) ∧ Rows parseDependency_cases 2 := by
+  decide +kernel
+
+theorem parseRelation_dispatch :
+    Agrees parseRelation_cases [0] (fun c => c = 0 || c = 44) ∧ Agrees parseRelation_cases [1] (· = 124)
+    ∧ Rows parseRelation_cases 2 := by decide +kernel
+
+theorem parsePossibility_dispatch :
+    Agrees parsePossibility_cases [0, 1, 2] nameStop ∧ Agrees parsePossibility_cases [0] (· = 58)
+    ∧ Agrees parsePossibility_cases [2] (fun c => c = 44 || c = 124 || c = 0) ∧ Rows parsePossibility_cases 3 := by
+  decide +kernel
+
+theorem parseSubstvar_stop :
+    Agrees parseSubstvar_cases [0, 1] (fun c => c = 0 || c = 125) ∧ Agrees parseSubstvar_cases [1] (· = 125)
+    ∧ Rows parseSubstvar_cases 2 := by decide +kernel
+
+theorem parseMultiarch_stop : Agrees parseMultiarch_cases [0] multiarchStop ∧ Rows parseMultiarch_cases 2 := by
+  decide +kernel
+
+theorem parseControllers_dispatch :
+    Agrees parsePossibilityControllers_cases [0] (fun c => c = 44 || c = 124 || c = 0)
+    ∧ Agrees parsePossibilityControllers_cases [1] (· = 40) ∧ Agrees parsePossibilityControllers_cases [2] (· = 91)
+    ∧ Agrees parsePossibilityControllers_cases [3] (· = 60) ∧ Rows parsePossibilityControllers_cases 4 := by
+  decide +kernel
+
+theorem parseNumber_stop :
+    Agrees parsePossibilityNumber_cases [0, 1] (fun c => c = 0 || c = 41) ∧ Agrees parsePossibilityNumber_cases [1] (· = 41)
+    ∧ Rows parsePossibilityNumber_cases 2 := by decide +kernel
+
+theorem parseArchs_dispatch :
+    Agrees parsePossibilityArchs_cases [0] (· = 0) ∧ Agrees parsePossibilityArchs_cases [1] (· = 93)
+    ∧ Rows parsePossibilityArchs_cases 2 := by decide +kernel
+
+theorem parseArch_stop :
+    Agrees parsePossibilityArch_cases [0, 1, 2] (fun c => c = 0 || c = 33 || c = 93 || isWs c)
+    ∧ Agrees parsePossibilityArch_cases [0, 1] (fun c => c = 0 || c = 33) ∧ Rows parsePossibilityArch_cases 3 := by
+  decide +kernel
+
+theorem parseStageSet_dispatch :
+    Agrees parsePossibilityStageSet_cases [0] (· = 0) ∧ Agrees parsePossibilityStageSet_cases [1] (· = 62)
+    ∧ Rows parsePossibilityStageSet_cases 2 := by decide +kernel
+
+theorem parseStage_stop :
+    Agrees parsePossibilityStage_cases [0, 1, 2] (fun c => c = 0 || c = 33 || c = 62 || isWs c)
+    ∧ Agrees parsePossibilityStage_cases [0, 1] (fun c => c = 0 || c = 33) ∧ Rows parsePossibilityStage_cases 3 := by
+  decide +kernel
+
+/-- the operator whitelist of `parsePossibilityOperator` -/
+theorem operator_whitelist :
+    parsePossibilityOperator_cases = none ∨ parsePossibilityOperator_cases = some [["s:>=", "s:<=", "s:<<", "s:>>"]] := by
+  decide +kernel
+
+/-- `SatisfiedBy`: operator ↦ comparison, as the model's if-chain has it -/
+theorem satisfiedBy_table :
+    (satisfiedBy_cases = none ∨ satisfiedBy_returns = none) ∨
+    (satisfiedBy_cases.getD [] |>.map (·.headD "")).zip (satisfiedBy_returns.getD [])
+      = [("s:>=", "q>=0"), ("s:<=", "q<=0"), ("s:>>", "q>0"), ("s:<<", "q<0"), ("s:=", "q==0")] := by
+  decide +kernel
+
+/-- names are accumulated byte by byte, never re-encoded through `string(byte)` -/
+theorem names_keep_bytes : nameAccumulation.1 = 0 := by decide +kernel
+
 end GoDebian.Tie.Dependency
